@@ -154,16 +154,15 @@ Theorem C16_budget :
 Proof. exact do_request_budget. Qed.
 Print Assumptions C16_budget.
 
-(* with valid credentials (complete, accepted by the token endpoint and by the
-   registry), known schemes and a rewindable body, the request ends with the
-   registry's non-401 answer within the budget *)
+(* with valid credentials (present and complete for the challenged flow, accepted
+   by the token endpoint and by the registry), known schemes and a rewindable
+   body, the request ends with the registry's non-401 answer within the budget *)
 Theorem C16_valid_credentials_succeed :
   forall clean cf c rq script,
     let '(evs, c', r) := do_request clean cf c rq script in
     r <> RBad ->
     rq_body rq <> BOnce ->
-    cred_empty (cf_creds cf (rq_host rq)) = false ->
-    c_user (cf_creds cf (rq_host rq)) && c_pass (cf_creds cf (rq_host rq)) = true ->
+    r <> RErr ENoCred -> r <> RErr EMissing ->
     (forall s, ~ In (s, AFail) evs) ->
     (forall h a hdr, ~ In (SReg h a true, A401 hdr) evs) ->
     (forall s hdr ps, In (s, A401 hdr) evs -> parse_challenge hdr <> Ch SchUnknown ps) ->
